@@ -73,6 +73,16 @@ CHECKS.update({
             "DESIGN.md section 3 C07"),
 })
 
+CHECKS.update({
+    "C04": ("Bounded symbolic execution of the conformance checks on real loaded schemas with symbolic responses: z3 proves the status-code "
+            "tables equal their digit patterns for all codes 100..599; status_code_conformance, validate_response, content_type_conformance, "
+            "response_headers_conformance, _coerce_header_value and run_checks are executed with symbolic status / Content-Type text / header "
+            "values / body choice and compared with OpenAPI's precedence (explicit > NXX > default; schema of the matching media type). "
+            "jsonschema's verdict on a concrete body is trusted.",
+            "CrossHair symbolic execution (z3) of the conformance checks and validate_response; z3 integer tables for status-code patterns",
+            "DESIGN.md section 3 C04"),
+})
+
 NOT_APPLICABLE = {
     "C13": "Seed reproducibility is a 2-run hyper-property of the whole program through Hypothesis' engine, its PRNG, identity-keyed caches and "
            "set iteration order; none of it can be made a symbolic variable of a bounded encoding, and the only solver-shaped fragment "
